@@ -45,6 +45,7 @@ func init() {
 			out = append(out, Instance{Scenario: "c08_rollback", Params: mustJSON(RollbackParams{}), Bound: 0, Shards: 8, Note: "a restart answered with a rollback: every event above the checkpointed position is delivered (the first unsettled one is not skipped)"})
 			out = append(out, Instance{Scenario: "c01_finite_end", Params: mustJSON(struct{}{}), Bound: 0, Note: "finite mode: streams end cleanly while acknowledgements are withheld, then save and exit"})
 			out = append(out, Instance{Scenario: "pipe", Params: mustJSON(PipeParams{Mode: "gen", Alphabet: []string{"M", "Mbefore", "Ebefore"}, Depth: 4, Ops: []string{"deliver0", "deliver1", "ackold", "commit"}, SkipUntil: true, CrashEnd: true}), Bound: 0, Shards: 4, Note: "skipUntil configured: events it removes never carry the position past an unacknowledged event"})
+			out = append(out, Instance{Scenario: "reopen_life", Params: mustJSON(LifeParams{Oracle: "delivery", Segs: 2}), Bound: 0, Shards: 8, Note: "no event is skipped on the way: after every transient end / fail-over / rollback (answered to the re-open of a live session, positions in the middle of a snapshot) the consumer is handed every document above the settled position before a later acknowledgement can carry the checkpoint past it"})
 			out = append(out, Instance{Scenario: "c07_gate", Params: mustJSON(MitigationParams{Replicas: 1, EpochAssign: true}), Bound: 0, Shards: 8, Note: "rollback mitigation: an event that waits at the gate for longer than a configuration-watch interval is still delivered once covered - it is never dropped, so no later acknowledgement can carry the checkpoint past it"})
 			out = append(out, Instance{Scenario: "c02_twogroups", Params: mustJSON(struct{}{}), Bound: 0, Note: "two consumer groups in one process: the stored checkpoint of a group names a position THAT group's consumer settled"})
 			out = append(out, Instance{Scenario: "reopen_life", Params: mustJSON(LifeParams{Oracle: "position", Segs: 2}), Bound: 0, Shards: 8, Note: "events the server sends again after a transient end / fail-over / rollback while their first copies are still unacknowledged: the position (and the next save) stays at the furthest ACKNOWLEDGED event"})
@@ -64,9 +65,9 @@ func init() {
 			if tier == "thorough" {
 				d = 4
 			}
-			docs := []string{"M", "D", "E", "Mres", "Mtxn", "Dres", "Mpart", "Mempty", "Mbin", "SEQ", "OSO", "CC", "CD", "CF", "CM", "SC", "SD"}
+			docs := []string{"M", "D", "E", "Mres", "Mtxn", "Dres", "Eres", "Mpart", "Mempty", "Mbin", "SEQ", "OSO", "CC", "CD", "CF", "CM", "SC", "SD"}
 			skip := []string{"M", "E", "Mbefore", "Mat", "Ebefore", "Mres", "SEQ"}
-			coll := []string{"M", "Mc1", "Dc2", "Mcx", "CC"}
+			coll := []string{"M", "Mc1", "Dc2", "Mcx", "CC", "CD"} // (CD: "collection c1 dropped", seen by ONE vBucket at that point)
 			ops := []string{"deliver0", "deliver1", "ackold"}
 			return []Instance{
 				{Scenario: "pipe", Params: mustJSON(PipeParams{Mode: "gen", Alphabet: docs, Depth: d, Ops: ops}), Bound: 0, Shards: 8},
